@@ -80,27 +80,29 @@ type pools struct {
 	loggers [3]*logging.Instance
 	coll    [3]*collector
 	writers [3]*bytes.Buffer
-	impls   [4]transport.Implementation // 0,1 null; 2 a user-made *transport.File; 3 nil
+	impls   [4]transport.Implementation           // 0,1 null; 2 a user-made *transport.File; 3 nil
 	privs   [4]map[string]*network.PrivilegeLevel // 3: an empty map (no levels)
-	home    string // the HOME this list runs under
+	home    string                                // the HOME this list runs under
 }
 
 // distinct top-level functions: identity is the code pointer
-func onOpen0(*generic.Driver) error          { return errors.New("onOpen0") }
-func onOpen1(*generic.Driver) error          { return errors.New("onOpen1") }
-func onOpen2(*generic.Driver) error          { return errors.New("onOpen2") }
-func onClose0(*generic.Driver) error         { return errors.New("onClose0") }
-func onClose1(*generic.Driver) error         { return errors.New("onClose1") }
-func onClose2(*generic.Driver) error         { return errors.New("onClose2") }
-func netOnOpen0(*network.Driver) error       { return errors.New("netOnOpen0") }
-func netOnOpen1(*network.Driver) error       { return errors.New("netOnOpen1") }
-func netOnOpen2(*network.Driver) error       { return errors.New("netOnOpen2") }
-func netOnClose0(*network.Driver) error      { return errors.New("netOnClose0") }
-func netOnClose1(*network.Driver) error      { return errors.New("netOnClose1") }
-func netOnClose2(*network.Driver) error      { return errors.New("netOnClose2") }
-func fmtA(l, m string) string                { return "A|" + l + "|" + m }
-func fmtB(l, m string) string                { return "B|" + l + "|" + m }
-func pickG(i int) func(*generic.Driver) error { return []func(*generic.Driver) error{onOpen0, onOpen1, onOpen2, nil}[i&3] }
+func onOpen0(*generic.Driver) error     { return errors.New("onOpen0") }
+func onOpen1(*generic.Driver) error     { return errors.New("onOpen1") }
+func onOpen2(*generic.Driver) error     { return errors.New("onOpen2") }
+func onClose0(*generic.Driver) error    { return errors.New("onClose0") }
+func onClose1(*generic.Driver) error    { return errors.New("onClose1") }
+func onClose2(*generic.Driver) error    { return errors.New("onClose2") }
+func netOnOpen0(*network.Driver) error  { return errors.New("netOnOpen0") }
+func netOnOpen1(*network.Driver) error  { return errors.New("netOnOpen1") }
+func netOnOpen2(*network.Driver) error  { return errors.New("netOnOpen2") }
+func netOnClose0(*network.Driver) error { return errors.New("netOnClose0") }
+func netOnClose1(*network.Driver) error { return errors.New("netOnClose1") }
+func netOnClose2(*network.Driver) error { return errors.New("netOnClose2") }
+func fmtA(l, m string) string           { return "A|" + l + "|" + m }
+func fmtB(l, m string) string           { return "B|" + l + "|" + m }
+func pickG(i int) func(*generic.Driver) error {
+	return []func(*generic.Driver) error{onOpen0, onOpen1, onOpen2, nil}[i&3]
+}
 func pickGC(i int) func(*generic.Driver) error {
 	return []func(*generic.Driver) error{onClose0, onClose1, onClose2, nil}[i&3]
 }
@@ -367,7 +369,9 @@ func init() {
 		&optSpec{Name: "WithReturnChar", Doc: "the channel ReturnChar",
 			Effects: []effect{{Obj: oChannel, Field: "ReturnChar", Val: func(o Opt, _ *pools) interface{} { return []byte(o.S) }}},
 			Make:    func(o Opt, _ *pools) util.Option { return options.WithReturnChar(o.S) },
-			Gen:     func(r *rand.Rand) Opt { return Opt{N: "WithReturnChar", S: ps(r, []string{"\n", "\r", "\r\n", "", "\n\n"})} }},
+			Gen: func(r *rand.Rand) Opt {
+				return Opt{N: "WithReturnChar", S: ps(r, []string{"\n", "\r", "\r\n", "", "\n\n"})}
+			}},
 		specD("WithTimeoutOps", "the channel TimeoutOps", oChannel, "TimeoutOps", options.WithTimeoutOps),
 		specD("WithReadDelay", "the channel ReadDelay", oChannel, "ReadDelay", options.WithReadDelay),
 		&optSpec{Name: "WithChannelLog", Doc: "io.Writer all channel read data is written to",
